@@ -158,6 +158,8 @@ def main():
         if confirmed >= 10:
             print("  (%d further distinct violation keys not printed)" % (len(fresh) - confirmed))
             break
+    out.extra["violation_keys"] = sorted(fresh)
+    out.extra["known_finding_keys"] = sorted(known)
     level = getattr(drv, "LEVEL", "model_checking")
     path = outcome.write_evidence(prop, tier, seed, level, out, wall, len(fresh), len(known))
     validate_evidence(path)
